@@ -881,6 +881,29 @@ class Extraction:
                 self.chunks.append(("pub mod %s {\n#[allow(unused_imports)] use super::*;\n" % c, None, None))
                 emit_tree(prefix + (c,))
                 self.chunks.append(("} // mod %s\n" % c, None, None))
+        # R-const: module-level constants of the source files that extracted items mention are extracted too
+        listed = {(e.get("file"), e.get("select")) for e in self.spec.get("item", []) if "select" in e}
+        text_now = "".join(c[0] for c in self.chunks) + "".join(c[0] for cls in tree.values() for cl in cls for c in cl)
+        for rel, S in list(self.sources.items()):
+            toks = S.toks
+            for i in S.depth_ranges(0, len(toks)):
+                if toks[i].kind == "ident" and toks[i].text == "const" and toks[i + 1].kind == "ident" \
+                        and toks[i + 2].text == ":" and (i == 0 or toks[i - 1].text in ";}])" or toks[i - 1].text == "pub"):
+                    name = toks[i + 1].text
+                    if (rel, "const " + name) in listed:
+                        continue
+                    if not re.search(r"\b%s\b" % re.escape(name), text_now):
+                        continue
+                    if re.search(r"\bconst\s+%s\b" % re.escape(name), text_now):
+                        continue
+                    entry = dict(file=rel, select="const " + name)
+                    it = find_item(S, entry["select"])
+                    rendered = self.render(it, entry)
+                    self.chunks.append(("\n// from %s:%d  [const %s]  (R-const: referenced by an extracted item)\n" % (
+                        rel, line_of(S.src, toks[it.lo].start), name), None, None))
+                    self.chunks.extend(rendered)
+                    self.chunks.append(("\n", None, None))
+                    self.count("R-const", "%s const %s" % (rel, name))
         imports = self._std_glob_imports()
         if imports:
             self.chunks.insert(self._auto_imports_at, (imports, None, None))
